@@ -448,8 +448,10 @@ pub fn update_contract(tr: &Trace) -> Vec<Finding> {
                 let was = r.before.find(id).copied();
                 match kind {
                     2 => {
-                        // price update to the level's own price: rejected without effect
-                        if res.is_ok() {
+                        // price update to the level's own price: rejected without effect.  For an
+                        // id that is not resting the statement also allows "not found".
+                        let tolerated = was.is_none() && matches!(res, Ok(None));
+                        if res.is_ok() && !tolerated {
                             out.push(f(i, format!("{} was not rejected", r.op.describe())));
                         }
                         if !same_world(&r.before, &r.after) {
